@@ -152,6 +152,7 @@ def run(ctx):
     _dispatch(ctx)
 
     _decoder_lifetime(ctx)
+    _roundtrip_model(ctx)
 
 def _dispatch(ctx):
     """R6: every byte that arrives outside a packet is looked at by the dispatch ($, +, -): the skip branch consumes
@@ -213,3 +214,58 @@ def _decoder_lifetime(ctx):
     first = pb.body[0]
     ok = isinstance(first, ast.Assign) and isinstance(first.value, ast.Call) and norm(first.value.func) == "self._packet_decoder.send" and norm(first.value.args[0]) == pb.args.args[1].arg
     ctx.ob("C35.R7", F + ":RspHandler._process_byte", "every received byte is sent to that decoder, unconditionally and first", ok, construct="every-byte-fed")
+
+
+def _roundtrip_model(ctx):
+    """R8: rsp_pack and rsp_unpack are pure string functions.  Their ASTs are evaluated by sa/minieval on every payload of
+    length 0..3 over an alphabet that contains each framing / escape character, one character that an escape produces and
+    two plain ones: the packet has the frame `$ body # hh`, no framing character appears raw in the body, unpack gives
+    the payload back (the empty payload `$#00` - gdb's "unsupported" reply - included), and a packet whose checksum or
+    frame is damaged is rejected."""
+    from .. import minieval
+    import itertools
+    ctx.rule("C35.R8", "rsp_pack / rsp_unpack evaluated on every payload of length 0..3 over {a, ], space, $, #, }, *}: framed as `$body#hh` with no raw framing character in the body, unpack(pack(p)) == p (empty payload included), damaged checksum or frame rejected", floor=4)
+    pk = ctx.fn(F, "RspHandler.rsp_pack")
+    un = ctx.fn(F, "RspHandler.rsp_unpack")
+    site = F + ":RspHandler.rsp_pack/rsp_unpack"
+    alpha = ["a", "]", " ", "$", "#", "}", "*"]
+    menv = minieval.module_env(ctx.project.module(F).tree)
+    for c in ctx.cls(F, "RspHandler").body:
+        if isinstance(c, ast.FunctionDef) and any(norm(d) == "staticmethod" for d in c.decorator_list):
+            menv["__funcs__"].setdefault(c.name, c)
+    bad_frame, bad_rt, bad_rej, n = [], [], [], 0
+    try:
+        for k in range(0, 4):
+            for tup in itertools.product(alpha, repeat=k):
+                p = "".join(tup)
+                n += 1
+                packet = minieval.call(pk, [p], menv)
+                body = packet[1:-3] if isinstance(packet, str) else ""
+                cs = "%02x" % (sum(ord(c) for c in body) % 256)
+                if not (isinstance(packet, str) and len(packet) >= 4 and packet[0] == "$" and packet[-3] == "#" and "$" not in body and "#" not in body and packet[-2:].lower() == cs):
+                    bad_frame.append((p, packet))
+                    continue
+                try:
+                    back = minieval.call(un, [packet], menv)
+                except minieval.Rejected as e:
+                    back = "<rejected: %s>" % e
+                if back != p:
+                    bad_rt.append((p, packet, back))
+                if k <= 2:
+                    wrong = packet[:-2] + ("%02X" % ((int(packet[-2:], 16) + 1) % 256))
+                    for dmg in (wrong, "x" + packet[1:], packet[:-3] + "x" + packet[-2:]):
+                        try:
+                            minieval.call(un, [dmg], menv)
+                            bad_rej.append(dmg)
+                        except minieval.Rejected:
+                            pass
+    except minieval.Undecidable as e:
+        ctx.undecided("C35.R8", site, "evaluation: %s" % e)
+        return
+    ctx.ob("C35.R8", F + ":RspHandler.rsp_pack", "every packet is `$` body `#` two checksum digits of the body as sent, and the body contains no raw `$` or `#` (%d payloads)" % n, not bad_frame, construct="frame", detail=str(bad_frame[:3]))
+    ctx.ob("C35.R8", F + ":RspHandler.rsp_unpack", "unpack(pack(p)) == p for every payload (%d payloads, the empty one included)" % n, not bad_rt, construct="roundtrip", detail="(payload, packet, unpacked): %s" % bad_rt[:3])
+    ctx.ob("C35.R8", F + ":RspHandler.rsp_unpack", "a packet with a wrong checksum, a wrong start or a wrong end marker is rejected", not bad_rej, construct="damage-rejected", detail=str(bad_rej[:3]))
+    dp = ctx.fn(F, "RspHandler.decodepkt")
+    tr = [t for t in ast.walk(dp) if isinstance(t, ast.Try) and any(isinstance(c, ast.Call) and norm(c.func) == "self.rsp_unpack" for st in t.body for c in ast.walk(st))]
+    ok = len(tr) == 1 and any("ValueError" in norm(h.type) for h in tr[0].handlers if h.type is not None) and any(isinstance(c, ast.Call) and norm(c.func) == "self.on_message" for st in tr[0].orelse + tr[0].body for c in ast.walk(st))
+    ctx.ob("C35.R8", F + ":RspHandler.decodepkt", "a packet that unpacks is delivered to on_message; only a rejected one is negatively acknowledged", ok, construct="delivered")
